@@ -3,13 +3,16 @@ NJ / UPGMA recover the generating tree from additive / ultrametric matrices.
 
 Oracles (all written here, none taken from cogent3):
 
-* estimators: the 4x4 pair count table is built by a plain loop over the
+* estimators: the r x r pair count table (r = 4 for DNA/RNA, r = 21 for the
+  protein moltype: 20 residues plus U) is built by a plain loop over the
   columns in which both symbols are canonical; p-distance, Hamming, JC69, TN93
-  (Tamura & Nei 1993), paralinear (Lake 1994) and LogDet (Lockhart 1994, with
-  and without the Tamura-Kumar 2002 coefficient) are evaluated on it with
-  exact rational arithmetic (``fractions``) up to the final ``log``/``sqrt``;
-  the 4x4 determinant is an exact Gaussian elimination.  Whether a formula is
-  defined is decided exactly, values are compared at 1e-9.
+  (Tamura & Nei 1993; nucleic acids only), paralinear (Lake 1994) and LogDet
+  (Lockhart 1994, with and without the Tamura-Kumar 2002 coefficient) for r
+  states are evaluated on it with exact rational / integer arithmetic up to
+  the final ``log``; the determinant is an exact fraction-free (Bareiss)
+  elimination on twice the table, whose empty diagonal cells hold the
+  documented pseudo-count of 0.5.  Whether a formula is defined is decided
+  exactly, values are compared at 1e-9.
 * trees: a nested-list tree model; the additive (ultrametric) matrix is the
   model's path-length matrix, and the reconstructed tree is read structurally
   (children / name / length) and compared for bipartitions (rooted clusters),
@@ -29,54 +32,102 @@ from vlib.core import Soft, Sub
 PROPERTY_ID = "C15"
 LEVEL = "exploration"
 RULE = (
-    "estimators: a case is a generated DNA/RNA alignment (2-6 rows, 8-200 columns) built from a base sequence with unequal "
+    "estimators: a case is a generated DNA, RNA or protein alignment (2-6 rows, 8-221 columns) built from a base sequence with unequal "
     "composition by per-row substitution masks (transitions, two kinds of transversion, low/mid/high rates) and "
     "non-canonical masks (gaps, ?, N and two/three-fold IUPAC codes), with rows that are exact copies, copies that differ "
     "only in non-canonical columns, independent (saturated) rows, pairs with exactly 3/4 of the sites different and pairs "
     "without a shared canonical column; a conserved ACGT block is inserted in most cases; plus a column permutation, a row "
-    "permutation and the choice Alignment/ArrayAlignment. Every pair x {pdist, hamming, jc69, tn93, paralinear, logdet, "
-    "logdet without TK adjustment} is compared with the harness formulas; symmetry, zero diagonal, column-permutation and "
-    "row-order invariance and agreement of aln.distance_matrix / get_distance_calculator / fast_slow_dist are checked. "
-    "Non-trivial = some pair shows transitions and transversions and the composition is not uniform. "
-    "nj: a case is an unrooted tree (3-12 tips, dyadic / float / short-internal positive branch lengths; caterpillar, "
+    "permutation and the choice Alignment/ArrayAlignment. Protein cases (2 in 5) use the same construction over the 21 canonical "
+    "states of the protein moltype (full, skewed and 2-7 residue compositions, with and without U), three substitution kinds, "
+    "the non-canonical symbols - ? X B Z and a conserved block of all 20 / all 21 / four residues or none, so that pair tables "
+    "with a fully occupied diagonal and tables needing the 0.5 pseudo-count both occur. Every pair x {pdist, hamming, jc69, tn93, "
+    "paralinear, logdet, logdet without TK adjustment} (protein: without jc69 / tn93, which must refuse the alignment with "
+    "ValueError) is compared with the harness formulas for r states, including paralinear / LogDet on tables with empty diagonal "
+    "cells (documented 0.5 pseudo-count); symmetry, zero diagonal, column-permutation and "
+    "row-order invariance and agreement of aln.distance_matrix / get_distance_calculator / fast_slow_dist are checked; "
+    "DistanceMatrix.drop_invalid and aln.distance_matrix(drop_invalid=True) must keep exactly the rows without an undefined "
+    "distance (None when fewer than two remain) with unchanged values; aln.quick_tree(calc=, drop_invalid=) must have exactly "
+    "the kept rows as tips and the path lengths of nj on the same distances. "
+    "Non-trivial = some pair shows transitions and transversions (protein: at least three kinds of difference) and the composition is not uniform. "
+    "nj: a case is an unrooted tree (3-12 tips, thorough tier 3-30; dyadic / float / short-internal / small-integer positive branch lengths; caterpillar, "
     "random binary or multifurcating shape), a tip naming, a key order and a key style for the distance dictionary; nj, "
     "gnj(keep=1), DistanceMatrix.quick_tree and the quick_tree app must return the generating bipartitions and path lengths "
-    "(for a multifurcating generator: a binary refinement of it with the generating path lengths). "
+    "(for a multifurcating generator: a binary refinement of it with the generating path lengths). For integer branch lengths "
+    "a DNA alignment is built with one homoplasy-free two-state column per unit of branch length (plus constant, all-gap and all-N "
+    "columns), whose hamming / p-distance matrix is the additive matrix: aln.distance_matrix must equal it and "
+    "Alignment/ArrayAlignment.quick_tree(calc=hamming|pdist) must return the generating tree. "
     "Non-trivial = at least 5 tips and either at least 3 cherries (not a caterpillar) or a multifurcation. "
-    "upgma: a case is a rooted binary ultrametric tree (3-12 tips, strictly increasing node heights) with a tip naming and "
-    "key order; upgma must return the generating clusters, path lengths and tip heights. Non-trivial = at least 5 tips and "
+    "upgma: a case is a rooted binary ultrametric tree (3-12 tips, thorough tier 3-30; strictly increasing node heights) with a tip naming, "
+    "key order and input form (dict, DistanceMatrix or both); upgma must return the generating clusters, path lengths and tip heights. Non-trivial = at least 5 tips and "
     "not a caterpillar. Distinct = distinct case encodings."
 )
 ASSUMPTIONS = [
-    "moltypes dna and rna only, old-style Alignment / ArrayAlignment (the only classes offering distance_matrix(calc=<fast calculator>))",
-    "non-canonical columns (gap, ?, N, IUPAC ambiguity in either sequence) are excluded pairwise, as the calculator docstrings state",
+    "moltypes dna, rna and protein, old-style Alignment / ArrayAlignment (the only classes offering distance_matrix(calc=<fast calculator>)); "
+    "text and bytes alignments (accepted by pdist / hamming) are not generated: the old-style classes change such data on construction "
+    "(upper-casing; '-' stored as 'T' in a text ArrayAlignment), which is outside this property",
+    "the canonical states of the protein moltype are the 21 characters ACDEFGHIKLMNPQRSTUVWY (checked against list(aln.moltype) at run time, "
+    "a mismatch is a harness error); r = 21 in the paralinear / LogDet formulas for protein, as the number of states of the moltype; "
+    "jc69 / tn93 list dna and rna as their only valid moltypes and must raise ValueError for protein",
+    "non-canonical columns (gap, ?, N / X, IUPAC ambiguity incl. B, Z in either sequence) are excluded pairwise, as the calculator docstrings state",
     "a pair without any shared canonical column has no defined distance (NaN expected); a pair with shared columns and no difference has distance 0 "
     "(for paralinear / LogDet 0 or NaN is accepted, the formula is 0 or 0*inf there)",
-    "paralinear / LogDet are only compared for pairs whose four diagonal counts are all positive (the implementation's 0.5 pseudo-count is neither copied nor asserted against)",
-    "pairs whose exact log argument (TN93) is within 1e-4 of zero, or whose exact determinant (paralinear / LogDet) is within 1e-5 of zero, are not compared (ill-conditioned, classed near-boundary)",
+    "paralinear / LogDet on a pair table with empty diagonal cells: each empty diagonal cell holds 0.5 and the table is then normalised by its new sum "
+    "(comment in _logdetcommon; pinned by test_paralinear_distance, test_logdet_variance, test_logdet_missing_states); the distance is undefined (NaN) "
+    "when the determinant of that matrix is <= 0 (test_*_for_determinant_lte_zero)",
+    "pairs whose exact log argument (TN93) is within 1e-4 of zero, or whose exact determinant (paralinear / LogDet) is zero, within 1e-5 of zero (4 states) "
+    "or belongs to a frequency matrix with 2-norm condition number above 1e4, are not compared (ill-conditioned, classed near-boundary)",
     "estimator values compared at rtol 1e-9 (relative to max(1,|want|)); undefined must coincide exactly outside the near-boundary band",
-    "aln.distance_matrix may raise the documented ArithmeticError only when the oracle finds an undefined or near-boundary pair",
+    "aln.distance_matrix may raise the documented ArithmeticError only when the oracle finds an undefined or near-boundary pair; with drop_invalid=True it must not raise",
+    "drop_invalid drops every name whose row / column holds a NaN (docstring 'drops all rows / columns with an invalid entry') and returns None when fewer than two "
+    "names remain (test_dropping_from_matrix); the expected kept set is read from the calculator's own full matrix, whose entries are checked against the formulas",
+    "aln.quick_tree is called only when at least two rows remain (what it does when every row is dropped is not specified); with drop_invalid=False and an undefined pair the documented ArithmeticError is allowed; "
+    "for non-additive matrices its path lengths are compared with nj of the same distances (a wiring check), exactness is checked in the nj sub-check",
     "NJ generators have strictly positive branch lengths (>= 0.001); for binary generators the topology is unique and must be returned, for multifurcating "
     "generators (1 in 6) the binary result must contain every generating bipartition and reproduce all path lengths; UPGMA generators have strictly increasing node heights (increments >= 0.001); tolerance 1e-9",
-    "distance dictionaries given to nj contain every unordered pair at least once (both orders, one order, or a mixture); those given to upgma contain both orders",
+    "distance dictionaries given to nj contain every unordered pair at least once (both orders, one order, or a mixture); those given to upgma contain both orders; "
+    "upgma also receives a DistanceMatrix (the call form of doc/examples/calculate_UPGMA_cluster.rst)",
+    "trees of 13-30 tips are generated in the thorough tier only",
 ]
 
 CANON = "ACGT"
 A, C, G, T = 0, 1, 2, 3
 NONCANON = "-?NRYWSKMBDHV"
+# the canonical states of cogent3's (old-style) PROTEIN moltype: the 20 standard residues plus U (selenocysteine)
+PROT = "ACDEFGHIKLMNPQRSTUVWY"
+PROT20 = "ACDEFGHIKLMNPQRSTVWY"
+NONCANON_PROT = "-?XBZ"
+STATES = {"dna": "ACGT", "rna": "ACGU", "protein": PROT}
 TS = {"A": "G", "G": "A", "C": "T", "T": "C"}
 TV1 = {"A": "C", "C": "A", "G": "T", "T": "G"}
 TV2 = {"A": "T", "T": "A", "G": "C", "C": "G"}
+# protein substitution kinds: three fixed-point-free rotations of a residue ordering that keeps similar residues adjacent
+_PORDER = "ILVMFYWHKRDENQSTAGCPU"
+PSUB = {k: {ch: _PORDER[(i + step) % len(_PORDER)] for i, ch in enumerate(_PORDER)} for k, step in (("s", 1), ("v", 4), ("w", 10))}
+NSUB = {"s": TS, "v": TV1, "w": TV2}
 CALCS = ["pdist", "hamming", "jc69", "tn93", "paralinear", "logdet", "logdet_notk"]
+NUC_ONLY = ("jc69", "tn93")
+LOGDET_LIKE = ("paralinear", "logdet", "logdet_notk")
 UNDEF = "undefined"
 SKIP = "skip"
+COND_MAX = 1e4  # 2-norm condition number of the frequency matrix above which paralinear / LogDet values are not compared
+
+
+def calcs_for(moltype: str):
+    return [c for c in CALCS if moltype != "protein" or c not in NUC_ONLY]
 
 
 # ------------------------------------------------------------ estimator oracle
-def pair_counts(a: str, b: str):
-    """4x4 counts over the columns where both symbols are canonical (T and U are the same state)"""
-    idx = {"A": A, "C": C, "G": G, "T": T, "U": T}
-    n = [[0] * 4 for _ in range(4)]
+def state_index(moltype: str):
+    if moltype == "protein":
+        return {ch: i for i, ch in enumerate(PROT)}
+    return {"A": A, "C": C, "G": G, "T": T, "U": T}
+
+
+def pair_counts(a: str, b: str, moltype: str = "dna"):
+    """r x r counts over the columns where both symbols are canonical (T and U are the same nucleic acid state)"""
+    idx = state_index(moltype)
+    r = len(STATES[moltype])
+    n = [[0] * r for _ in range(r)]
     for x, y in zip(a, b):
         i = idx.get(x)
         j = idx.get(y)
@@ -86,96 +137,115 @@ def pair_counts(a: str, b: str):
     return n
 
 
-def masked(seq: str) -> str:
-    return "".join(ch if ch in "ACGTU" else "*" for ch in seq)
+def masked(seq: str, moltype: str = "dna") -> str:
+    keep = "ACGTU" if moltype != "protein" else PROT
+    return "".join(ch if ch in keep else "*" for ch in seq)
 
 
-def det_exact(m):
-    """exact determinant of a square matrix of Fractions (Gaussian elimination)"""
+def det_int(m):
+    """exact determinant of a square matrix of ints (fraction-free Bareiss elimination)"""
     m = [row[:] for row in m]
     n = len(m)
-    det = Fraction(1)
-    for c in range(n):
+    sign = 1
+    prev = 1
+    for c in range(n - 1):
         piv = next((r for r in range(c, n) if m[r][c] != 0), None)
         if piv is None:
-            return Fraction(0)
+            return 0
         if piv != c:
             m[c], m[piv] = m[piv], m[c]
-            det = -det
-        det *= m[c][c]
+            sign = -sign
         for r in range(c + 1, n):
-            f = m[r][c] / m[c][c]
-            if f:
-                for k in range(c, n):
-                    m[r][k] -= f * m[c][k]
-    return det
+            for k in range(c + 1, n):
+                m[r][k] = (m[r][k] * m[c][c] - m[r][c] * m[c][k]) // prev  # the division is exact
+        prev = m[c][c]
+    return sign * m[n - 1][n - 1]
 
 
-def oracle(n):
-    """{calc: float | UNDEF | SKIP} for one pair count table, plus descriptive facts"""
-    N = sum(sum(r) for r in n)
-    same = sum(n[i][i] for i in range(4))
+def _cond(m) -> float:
+    """2-norm condition number (floating point; only used to decide whether a value is compared)"""
+    import numpy
+
+    try:
+        c = float(numpy.linalg.cond(numpy.array(m, dtype=float)))
+    except numpy.linalg.LinAlgError:
+        return math.inf
+    return math.inf if math.isnan(c) else c
+
+
+def oracle(n, nucleic=True):
+    """{calc: float | UNDEF | SKIP} for one r x r pair count table, plus descriptive facts"""
+    r = len(n)
+    calcs = [c for c in CALCS if nucleic or c not in NUC_ONLY]
+    N = sum(sum(row) for row in n)
+    same = sum(n[i][i] for i in range(r))
     diffs = N - same
     out = {}
     facts = {"N": N, "diffs": diffs}
     if N == 0:
-        return {c: UNDEF for c in CALCS}, facts
+        return {c: UNDEF for c in calcs}, facts
     if diffs == 0:
-        return {c: 0.0 for c in CALCS}, facts
+        return {c: 0.0 for c in calcs}, facts
     p = Fraction(diffs, N)
     out["pdist"] = float(p)
     out["hamming"] = float(diffs)
-    # JC69
-    out["jc69"] = UNDEF if p >= Fraction(3, 4) else -0.75 * math.log(float(1 - Fraction(4, 3) * p))
-    # TN93
-    row = [sum(n[i]) for i in range(4)]
-    col = [sum(n[i][j] for i in range(4)) for j in range(4)]
-    g = [Fraction(row[i] + col[i], 2 * N) for i in range(4)]
-    gR, gY = g[A] + g[G], g[C] + g[T]
-    P1 = Fraction(n[A][G] + n[G][A], N)
-    P2 = Fraction(n[C][T] + n[T][C], N)
-    Q = Fraction(sum(n[i][j] + n[j][i] for i in (A, G) for j in (C, T)), N)
-    facts.update(ts=P1 + P2 > 0, tv=Q > 0, uniform=all(x == Fraction(1, 4) for x in g))
-    if g[A] * g[G] == 0 or g[C] * g[T] == 0:
-        out["tn93"] = UNDEF
-    else:
-        k1 = 2 * g[A] * g[G] / gR
-        k2 = 2 * g[T] * g[C] / gY
-        k3 = 2 * (gR * gY - g[A] * g[G] * gY / gR - g[T] * g[C] * gR / gY)
-        w = [1 - P1 / k1 - Q / (2 * gR), 1 - P2 / k2 - Q / (2 * gY), 1 - Q / (2 * gR * gY)]
-        if any(abs(x) < Fraction(1, 10**4) for x in w):
-            out["tn93"] = SKIP
-        elif any(x < 0 for x in w):
+    row = [sum(n[i]) for i in range(r)]
+    col = [sum(n[i][j] for i in range(r)) for j in range(r)]
+    g = [Fraction(row[i] + col[i], 2 * N) for i in range(r)]
+    if nucleic:
+        # JC69
+        out["jc69"] = UNDEF if p >= Fraction(3, 4) else -0.75 * math.log(float(1 - Fraction(4, 3) * p))
+        # TN93
+        gR, gY = g[A] + g[G], g[C] + g[T]
+        P1 = Fraction(n[A][G] + n[G][A], N)
+        P2 = Fraction(n[C][T] + n[T][C], N)
+        Q = Fraction(sum(n[i][j] + n[j][i] for i in (A, G) for j in (C, T)), N)
+        facts.update(ts=P1 + P2 > 0, tv=Q > 0, uniform=all(x == Fraction(1, 4) for x in g))
+        if g[A] * g[G] == 0 or g[C] * g[T] == 0:
             out["tn93"] = UNDEF
         else:
-            out["tn93"] = -float(k1) * math.log(float(w[0])) - float(k2) * math.log(float(w[1])) - float(k3) * math.log(float(w[2]))
-    # paralinear / LogDet
-    if any(n[i][i] == 0 for i in range(4)):
-        out["paralinear"] = out["logdet"] = out["logdet_notk"] = SKIP
-        facts["pseudo_count_domain"] = True
+            k1 = 2 * g[A] * g[G] / gR
+            k2 = 2 * g[T] * g[C] / gY
+            k3 = 2 * (gR * gY - g[A] * g[G] * gY / gR - g[T] * g[C] * gR / gY)
+            w = [1 - P1 / k1 - Q / (2 * gR), 1 - P2 / k2 - Q / (2 * gY), 1 - Q / (2 * gR * gY)]
+            if any(abs(x) < Fraction(1, 10**4) for x in w):
+                out["tn93"] = SKIP
+            elif any(x < 0 for x in w):
+                out["tn93"] = UNDEF
+            else:
+                out["tn93"] = -float(k1) * math.log(float(w[0])) - float(k2) * math.log(float(w[1])) - float(k3) * math.log(float(w[2]))
     else:
-        J = [[Fraction(n[i][j], N) for j in range(4)] for i in range(4)]
-        det = det_exact(J)
-        fx = [Fraction(row[i], N) for i in range(4)]
-        fy = [Fraction(col[i], N) for i in range(4)]
-        if abs(det) < Fraction(1, 10**5):
-            out["paralinear"] = out["logdet"] = out["logdet_notk"] = SKIP
-        elif det < 0:
-            out["paralinear"] = out["logdet"] = out["logdet_notk"] = UNDEF
-        else:
-            prod = Fraction(1)
-            for i in range(4):
-                prod *= fx[i] * fy[i]
-            larg = math.log(float(det)) - 0.5 * math.log(float(prod))
-            out["paralinear"] = -larg / 4
-            hom = 1 - sum(((fx[i] + fy[i]) / 2) ** 2 for i in range(4))
-            out["logdet"] = -float(hom) / 3 * larg
-            out["logdet_notk"] = -math.log(float(det)) / 4 - math.log(4)
+        kinds = sum(1 for i in range(r) for j in range(r) if i != j and n[i][j])
+        facts.update(ts=diffs > 0, tv=kinds >= 3, uniform=all(x == g[0] for x in g))
+    # paralinear / LogDet on the table whose empty diagonal cells hold the documented pseudo-count of 0.5.  Everything is
+    # evaluated on twice the table (integers): J = M / S, and S cancels in det(J) / sqrt(prod fx * prod fy)
+    M = [[2 * n[i][j] for j in range(r)] for i in range(r)]
+    empty = [i for i in range(r) if n[i][i] == 0]
+    for i in empty:
+        M[i][i] = 1
+    facts["pseudo_count_domain"] = bool(empty)
+    S = sum(sum(rw) for rw in M)
+    d = det_int(M)
+    cond = _cond(M) if d else math.inf
+    facts["cond"] = cond
+    if d == 0 or cond > COND_MAX or (r == 4 and abs(Fraction(d, S**r)) < Fraction(1, 10**5)):
+        out["paralinear"] = out["logdet"] = out["logdet_notk"] = SKIP
+    elif d < 0:
+        out["paralinear"] = out["logdet"] = out["logdet_notk"] = UNDEF
+    else:
+        rs = [sum(M[i]) for i in range(r)]
+        cs = [sum(M[i][j] for i in range(r)) for j in range(r)]
+        larg = math.log(d) - 0.5 * sum(math.log(x) for x in rs + cs)  # log(det J / sqrt(prod fx * prod fy))
+        out["paralinear"] = -larg / r
+        hom = 1 - sum(Fraction(rs[i] + cs[i], 2 * S) ** 2 for i in range(r))
+        out["logdet"] = -float(hom) / (r - 1) * larg
+        out["logdet_notk"] = -(math.log(d) - r * math.log(S)) / r - math.log(r)
     return out, facts
 
 
 # --------------------------------------------------------- estimator generator
 BASE_ALPHABETS = ["ACGT", "AAAACCGT", "ACCCGGGGTT", "AACGGGGTTTTT", "ACGTTTTT", "AC", "ACG", "AGT"]
+PROT_ALPHABETS = [PROT20, "AAAALLLLGGGSSSVVEEKKDTPRINQFYHMCW", PROT, "AAAALLLGGSVEKU", "GASTLVK", "KRDEH", "ACDE", "AL"]
 SUB_MASKS = {
     "none": ".",
     "low": "." * 40 + "ssv",
@@ -188,19 +258,24 @@ NOISE_MASKS = {
     "some": "--?NRY",
     "heavy": "------??NNRYWSKMBDHV",
 }
+PROT_NOISE_MASKS = {
+    "none": "",
+    "gaps": "----",
+    "some": "--?XBZ",
+    "heavy": "------??XXXXBBZZ",
+}
+# conserved blocks inserted into every row: they decide which diagonal cells of the count tables are occupied
+NUC_BLOCKS = ["ACGT"] * 6 + [""]
+PROT_BLOCKS = [PROT20] * 3 + [PROT] * 3 + ["ACDE", "", ""]
 
 
-def apply_mask(seq: str, mask: str) -> str:
+def apply_mask(seq: str, mask: str, sub=NSUB) -> str:
     out = []
     for ch, m in zip(seq, mask):
         if m == ".":
             out.append(ch)
-        elif m == "s":
-            out.append(TS.get(ch, ch))
-        elif m == "v":
-            out.append(TV1.get(ch, ch))
-        elif m == "w":
-            out.append(TV2.get(ch, ch))
+        elif m in "svw":
+            out.append(sub[m].get(ch, ch))
         else:
             out.append(m)
     return "".join(out)
@@ -212,12 +287,17 @@ def _text(alphabet: str, L: int):
 
 @st.composite
 def est_cases(draw):
-    mode = draw(st.sampled_from(["divergent"] * 10 + ["dups"] * 3 + ["gapdups"] * 3 + ["saturated"] * 2 + ["exact075", "disjoint"]))
+    protein = draw(st.sampled_from([False, False, False, True, True]))
+    alphabets = PROT_ALPHABETS if protein else BASE_ALPHABETS
+    sub = PSUB if protein else NSUB
+    noise_masks = PROT_NOISE_MASKS if protein else NOISE_MASKS
+    modes = ["divergent"] * 10 + ["dups"] * 3 + ["gapdups"] * 3 + ["saturated"] * 2 + ["disjoint"] + ([] if protein else ["exact075"])
+    mode = draw(st.sampled_from(modes))
     n = draw(st.sampled_from([2, 3, 3, 4, 4, 5, 6]))
     L = draw(st.sampled_from([8, 12, 16, 20, 24, 32, 40, 48, 60, 80, 120, 200]))
     if mode == "exact075":
         L = 16 + 4 * draw(st.integers(0, 12))
-    base_alpha = draw(st.sampled_from(BASE_ALPHABETS))
+    base_alpha = draw(st.sampled_from(alphabets))
     base = draw(_text(base_alpha, L))
     noise = draw(st.sampled_from(["none", "none", "gaps", "some", "heavy"]))
     rows = []
@@ -238,31 +318,33 @@ def est_cases(draw):
         kinds.append(kind)
         if kind == "mut":
             rate = draw(st.sampled_from(["low", "mid", "mid", "high", "low", "none"]))
-            alpha = SUB_MASKS[rate] + (NOISE_MASKS[noise] if mode != "exact075" else "")
-            seq = apply_mask(base, draw(_text(alpha, L)))
+            alpha = SUB_MASKS[rate] + (noise_masks[noise] if mode != "exact075" else "")
+            seq = apply_mask(base, draw(_text(alpha, L)), sub)
         elif kind == "copy":
             seq = rows[draw(st.integers(0, i - 1))]
         elif kind == "gapcopy":
             src = rows[draw(st.integers(0, i - 1))]
-            alpha = "." * draw(st.sampled_from([2, 6, 20])) + NOISE_MASKS[draw(st.sampled_from(["gaps", "some", "heavy"]))]
-            seq = apply_mask(src, draw(_text(alpha, L)))
+            alpha = "." * draw(st.sampled_from([2, 6, 20])) + noise_masks[draw(st.sampled_from(["gaps", "some", "heavy"]))]
+            seq = apply_mask(src, draw(_text(alpha, L)), sub)
         elif kind == "indep":
-            seq = draw(_text(draw(st.sampled_from(BASE_ALPHABETS[:5])), L))
+            seq = draw(_text(draw(st.sampled_from(alphabets[:5])), L))
         elif kind == "q3":
             # exactly three of every four columns differ from row 0 (which is canonical everywhere in this mode)
             kindmask = draw(_text("svw", L))
-            seq = apply_mask(rows[0], "".join("." if k % 4 == 0 else kindmask[k] for k in range(L)))
+            seq = apply_mask(rows[0], "".join("." if k % 4 == 0 else kindmask[k] for k in range(L)), sub)
         else:  # disjoint: canonical exactly where row 0 is not
             cut = draw(st.integers(1, L - 1))
             rows[0] = rows[0][:cut] + "-" * (L - cut)
-            seq = "-" * cut + draw(_text("ACGT", L - cut))
+            seq = "-" * cut + draw(_text(alphabets[0], L - cut))
         rows.append(seq)
-    block = mode not in ("exact075", "disjoint") and draw(st.integers(0, 6)) > 0
+    block = ""
+    if mode not in ("exact075", "disjoint"):
+        block = draw(st.sampled_from(PROT_BLOCKS if protein else NUC_BLOCKS))
     if block:
         pos = draw(st.integers(0, L))
-        rows = [r[:pos] + "ACGT" + r[pos:] for r in rows]
-        L += 4
-    moltype = draw(st.sampled_from(["dna", "dna", "rna"]))
+        rows = [r[:pos] + block + r[pos:] for r in rows]
+        L += len(block)
+    moltype = "protein" if protein else draw(st.sampled_from(["dna", "dna", "rna"]))
     if moltype == "rna":
         rows = [r.replace("T", "U") for r in rows]
     names = draw(st.permutations([f"s{i}" for i in range(n)]))
@@ -273,7 +355,8 @@ def est_cases(draw):
         "rows": [[names[i], rows[i]] for i in range(n)],
         "colperm": draw(st.permutations(list(range(L)))),
         "roworder": draw(st.permutations(list(range(n)))),
-        "calc": draw(st.sampled_from(CALCS[:6])),
+        "calc": draw(st.sampled_from([c for c in CALCS[:6] if not (protein and c in NUC_ONLY)])),
+        "drop": draw(st.booleans()),
     }
 
 
@@ -296,14 +379,15 @@ def _same(a, b, rtol=1e-12) -> bool:
     return abs(a - b) <= rtol * max(1.0, abs(a), abs(b))
 
 
-def _run_calc(calc, aln):
-    """pairwise distance dict {(a, b): float} from a directly constructed calculator"""
+def _run_calc(calc, aln, label=None):
+    """pairwise distance dict {(a, b): float} from a directly constructed calculator (moltype given as object, or by its label)"""
     from cogent3.evolve.fast_distance import get_distance_calculator
 
+    mt = aln.moltype if label is None else label
     if calc == "logdet_notk":
-        c = get_distance_calculator("logdet", moltype=aln.moltype, alignment=aln, use_tk_adjustment=False)
+        c = get_distance_calculator("logdet", moltype=mt, alignment=aln, use_tk_adjustment=False)
     else:
-        c = get_distance_calculator(calc, moltype=aln.moltype, alignment=aln)
+        c = get_distance_calculator(calc, moltype=mt, alignment=aln)
     c.run(show_progress=False)
     return c.get_pairwise_distances()
 
@@ -326,6 +410,11 @@ def exec_est(case) -> Soft:
     n = len(rows)
     L = len(rows[0][1])
     moltype = case["moltype"]
+    if moltype not in STATES:
+        raise ValueError(f"unknown moltype in case: {moltype!r}")
+    protein = moltype == "protein"
+    calcs = calcs_for(moltype)
+    states = set(STATES[moltype]) | ({"T", "U"} if not protein else set())
     ok, aln = s.call("make_aligned_seqs", _make_aln, rows, moltype, bool(case["array_align"]))
     if not ok:
         return s
@@ -335,24 +424,26 @@ def exec_est(case) -> Soft:
     pairs = list(itertools.combinations(names, 2))
     want = {}
     facts = {}
-    msk = {nm: masked(seqs[nm]) for nm in names}
+    msk = {nm: masked(seqs[nm], moltype) for nm in names}
     gap_equal = set()  # rows with a partner that is equal on shared canonical columns but is not the same row
     for a, b in pairs:
-        cnt = pair_counts(seqs[a], seqs[b])
-        o, f = oracle(cnt)
+        cnt = pair_counts(seqs[a], seqs[b], moltype)
+        o, f = oracle(cnt, nucleic=not protein)
         if msk[a] == msk[b]:
-            o = {c: 0.0 for c in CALCS}
+            o = {c: 0.0 for c in calcs}
             f["identical"] = True
         elif f["diffs"] == 0:
             gap_equal.update([a, b])
         want[(a, b)] = o
         facts[(a, b)] = f
-    if any(ch not in "ACGTU" for sq in seqs.values() for ch in sq):
+    if any(ch not in states for sq in seqs.values() for ch in sq):
         s.cls("non-canonical")
     if any(ch in "-?" for sq in seqs.values() for ch in sq):
         s.cls("gaps")
-    if any(ch in "NRYWSKMBDHV" for sq in seqs.values() for ch in sq):
+    if any(ch in ("XBZ" if protein else "NRYWSKMBDHV") for sq in seqs.values() for ch in sq):
         s.cls("ambiguity-codes")
+    if protein and any("U" in sq for sq in seqs.values()):
+        s.cls("selenocysteine")
     if any(f.get("identical") for f in facts.values()):
         s.cls("identical-rows")
     if gap_equal:
@@ -363,20 +454,41 @@ def exec_est(case) -> Soft:
         s.cls("saturated-pair")
     if any(f["N"] and f["diffs"] * 4 == f["N"] * 3 for f in facts.values()):
         s.cls("p-exactly-0.75")
-    for c in CALCS:
+    tag = "protein/" if protein else ""
+    for c in calcs:
         vals = [want[p][c] for p in pairs]
         if UNDEF in vals:
-            s.cls(f"undefined:{c}")
+            s.cls(f"undefined:{tag}{c}")
         if SKIP in vals:
-            s.cls(f"not-compared:{c}")
+            s.cls(f"not-compared:{tag}{c}")
         if any(isinstance(v, float) and v > 0 for v in vals):
-            s.cls(f"value:{c}")
+            s.cls(f"value:{tag}{c}")
+        if c == "paralinear":
+            # how often the pseudo-count clause is reached (a compared value / undefined on a table with an empty diagonal cell)
+            pc = [want[p][c] for p in pairs if facts[p].get("pseudo_count_domain") and not facts[p].get("identical")]
+            if any(isinstance(v, float) and v > 0 for v in pc):
+                s.cls(f"pseudo-count:{tag}value")
+            if UNDEF in pc:
+                s.cls(f"pseudo-count:{tag}undefined")
+            if SKIP in pc:
+                s.cls(f"pseudo-count:{tag}not-compared")
+            full = [want[p][c] for p in pairs if facts[p].get("pseudo_count_domain") is False]
+            if any(isinstance(v, float) and v > 0 for v in full):
+                s.cls(f"full-diagonal:{tag}value")
     s.nontrivial = any(f.get("ts") and f.get("tv") and not f.get("uniform") for f in facts.values())
 
     # ---- every estimator against the formulas
     evals = 0
     direct = {}
-    for c in CALCS:
+    if protein:
+        ok, st_real = s.call("moltype-states", lambda: "".join(str(x) for x in aln.moltype))
+        if ok and sorted(st_real) != sorted(PROT):
+            raise ValueError(f"harness assumption broken: canonical protein states are {st_real!r}, modelled {PROT!r}")
+        for c in NUC_ONLY:
+            # documented: jc69 / tn93 are for dna and rna only (valid_moltypes; ValueError)
+            ok, _v = s.call(f"{c}/protein", _run_calc, c, aln, allowed=(ValueError,))
+            s.check(not ok, f"{c}/protein-accepted", f"{c} calculator accepted a protein alignment {rows}")
+    for c in calcs:
         ok, dm = s.call(f"{c}/run", _run_calc, c, aln)
         if not ok:
             continue
@@ -384,7 +496,7 @@ def exec_est(case) -> Soft:
         if not ok:
             continue
         direct[c] = (dm, got)
-        lp = c in ("paralinear", "logdet", "logdet_notk")
+        lp = c in LOGDET_LIKE
         for a, b in pairs:
             w = want[(a, b)][c]
             f = facts[(a, b)]
@@ -400,7 +512,7 @@ def exec_est(case) -> Soft:
                 circ = "value/no-shared-columns" if f["N"] == 0 else "value/gap-equal-rows"
                 sig = circ  # one root cause for all estimators: the duplicate shortcut
             else:
-                sig = f"{c}/value"
+                sig = f"{c}/value" + ("/protein" if protein else "") + ("/pseudo-count" if lp and f.get("pseudo_count_domain") else "")
             what = f"{c} {a}={seqs[a]!r} {b}={seqs[b]!r} (rows {names}; shared canonical columns {f['N']}, differences {f['diffs']})"
             if w == UNDEF:
                 s.check(_isnan(g1), sig + ("" if sig.startswith("value/") else "/defined-where-formula-is-not"), f"{what}: got {g1!r}, the formula is undefined")
@@ -433,7 +545,7 @@ def exec_est(case) -> Soft:
         prow = [(nm, "".join(sq[k] for k in perm)) for nm, sq in rows]
         ok, aln2 = s.call("make_aligned_seqs", _make_aln, prow, moltype, bool(case["array_align"]))
         if ok:
-            ok, dm2 = s.call(f"{c}/run", _run_calc, c, aln2)
+            ok, dm2 = s.call(f"{c}/run", _run_calc, c, aln2, moltype)  # moltype by label: get_distance_calculator(c, moltype="protein", alignment=aln)
             if ok:
                 g2 = _dm_dict(dm2)
                 bad = [(p, got.get(p), g2.get(p)) for p in got if not _same(got[p], g2.get(p))]
@@ -476,6 +588,58 @@ def exec_est(case) -> Soft:
                 g5 = _dm_dict(dm5)
                 bad = [(p, got.get(p), g5.get(p)) for p in got if not _same(got[p], g5.get(p), 0.0)]
                 s.check(not bad and len(g5) == len(got), f"{c}/fast_slow_dist-vs-calculator", f"rows {rows}: {bad[:3]}")
+
+        # ---- drop_invalid: every row / column holding an undefined distance is dropped (None when fewer than two remain)
+        invalid = sorted({a for (a, b), v in got.items() if _isnan(v)})
+        kept = [nm for nm in names if nm not in invalid]
+        s.cls("drop_invalid:nothing-to-drop" if not invalid else "drop_invalid:none-left" if len(kept) < 2 else "drop_invalid:some-dropped")
+
+        def check_dropped(sig, dmx):
+            what = f"{c}: rows {rows}; rows with an undefined distance {invalid}"
+            if len(kept) < 2:
+                s.check(dmx is None, sig + "/too-few-left-not-None", f"{what}: got {str(dmx)[:200]}")
+                return
+            if dmx is None or not hasattr(dmx, "to_dict"):
+                s.fail(sig + "/no-matrix", f"{what}: got {dmx!r}")
+                return
+            gx = _dm_dict(dmx)
+            s.eq(sorted(str(x) for x in dmx.names), sorted(kept), sig + "/names", what)
+            wantx = {k: v for k, v in got.items() if k[0] in kept and k[1] in kept}
+            bad = [(k, v, gx.get(k)) for k, v in wantx.items() if not _same(v, gx.get(k), 0.0)]
+            s.check(not bad and len(gx) == len(wantx), sig + "/values", f"{what}: (pair, full matrix, after dropping) {bad[:3]}")
+
+        ok, dm6 = s.call(f"{c}/DistanceMatrix.drop_invalid", dm.drop_invalid)
+        if ok:
+            check_dropped("DistanceMatrix.drop_invalid", dm6)
+            again = _dm_dict(dm)
+            s.check(all(_same(v, again.get(k), 0.0) for k, v in got.items()) and len(again) == len(got), "DistanceMatrix.drop_invalid/receiver-changed", f"{c}: rows {rows}")
+        if case.get("drop"):
+            ok, dm7 = s.call(f"{c}/aln.distance_matrix[drop_invalid]", lambda: aln.distance_matrix(calc=c, drop_invalid=True))
+            if ok:
+                check_dropped("aln.distance_matrix[drop_invalid]", dm7)
+
+        # ---- Alignment.quick_tree(calc=): the neighbour joining tree of the same distances, on the rows that were kept
+        drop = bool(case.get("drop"))
+        tips_want = kept if drop else names
+        if len(tips_want) >= 2:
+            allowed = (ArithmeticError,) if invalid and not drop else ()
+            ok, qt = s.call(f"{c}/aln.quick_tree", lambda: aln.quick_tree(calc=c, drop_invalid=drop, show_progress=False), allowed=allowed)
+            if ok:
+                s.cls("aln.quick_tree:returned")
+                what = f"aln.quick_tree(calc={c!r}, drop_invalid={drop}) rows {rows}"
+                ok, obs = s.call("aln.quick_tree/observe", observe_real, qt)
+                if ok and s.eq(sorted(str(x) for x in m_tips(obs)), sorted(tips_want), "aln.quick_tree/tips", what):
+                    from cogent3.phylo.nj import nj
+
+                    sub = {k: v for k, v in got.items() if k[0] in tips_want and k[1] in tips_want}
+                    if not any(_isnan(v) for v in sub.values()):
+                        ok, ref = s.call("nj", lambda: nj(sub, show_progress=False))
+                        if ok:
+                            gp, rp = m_paths(obs), m_paths(observe_real(ref))
+                            bad = [(k, gp.get(k), v) for k, v in rp.items() if gp.get(k) is None or abs(gp[k] - v) > 1e-9 * max(1.0, abs(v))]
+                            s.check(not bad, "aln.quick_tree/differs-from-nj-of-its-distance-matrix", f"{what}: (pair, quick_tree, nj) {bad[:3]}")
+            else:
+                s.cls("aln.quick_tree:ArithmeticError")
     return s
 
 
@@ -583,6 +747,9 @@ def _brief(nd):
 
 
 TIP_NAMES = ["t0", "t1", "t2", "t3", "t4", "t5", "t6", "t7", "t8", "t9", "t10", "t11", "Human", "Mouse", "x_1", "b"]
+MORE_TIP_NAMES = TIP_NAMES + [f"t{i}" for i in range(12, 30)]
+SIZES_QUICK = [3, 4, 5, 6, 6, 7, 7, 8, 8, 9, 9, 10, 11, 12]
+SIZES_THOROUGH = SIZES_QUICK + [13, 14, 15, 16, 18, 20, 22, 24, 27, 30]
 DYADIC = [0.125, 0.25, 0.5, 0.75, 1.0, 1.5, 2.0, 3.0]
 
 
@@ -590,6 +757,8 @@ DYADIC = [0.125, 0.25, 0.5, 0.75, 1.0, 1.5, 2.0, 3.0]
 def _length(draw, style, internal):
     if style == "dyadic":
         return draw(st.sampled_from(DYADIC))
+    if style == "columns":
+        return draw(st.sampled_from([1, 1, 2, 3, 5]))
     if style == "short-internal":
         if internal:
             return draw(st.floats(0.001, 0.01, allow_nan=False, allow_infinity=False))
@@ -598,10 +767,10 @@ def _length(draw, style, internal):
 
 
 @st.composite
-def nj_cases(draw):
-    n = draw(st.sampled_from([3, 4, 5, 6, 6, 7, 7, 8, 8, 9, 9, 10, 11, 12]))
-    names = draw(st.permutations(TIP_NAMES))[:n]
-    style = draw(st.sampled_from(["dyadic", "dyadic", "float", "short-internal"]))
+def nj_cases(draw, tier="quick"):
+    n = draw(st.sampled_from(SIZES_THOROUGH if tier == "thorough" else SIZES_QUICK))
+    names = draw(st.permutations(MORE_TIP_NAMES if n > len(TIP_NAMES) else TIP_NAMES))[:n]
+    style = draw(st.sampled_from(["dyadic", "dyadic", "float", "short-internal", "columns"]))
     shape = draw(st.sampled_from(["random", "random", "random", "random", "polytomy", "caterpillar"]))
     nodes = [{"name": nm, "len": draw(_length(style, False)), "kids": []} for nm in names]
     root_deg = 3
@@ -627,6 +796,15 @@ def nj_cases(draw):
         "order": draw(st.permutations(sorted(names))),
         "keys": draw(st.sampled_from(["both", "both", "one", "mixed"])),
         "flip": draw(st.integers(0, 2**30)),
+        # style "columns" only: the alignment that realises the tree (one two-state column per unit of branch length)
+        "aln": {
+            "array_align": draw(st.booleans()),
+            "calc": draw(st.sampled_from(["hamming", "pdist"])),
+            "states": draw(st.lists(st.sampled_from(["AG", "CT", "AC", "GT", "TA", "GC"]), min_size=1, max_size=7)),
+            "gap_column": draw(st.booleans()),
+        }
+        if style == "columns"
+        else None,
     }
 
 
@@ -681,6 +859,39 @@ def compare_tree(s: Soft, sig, real_tree, model, what, rooted, tol=1e-9, refine_
     return got
 
 
+def realise_alignment(model, spec):
+    """rows {tip: sequence} in which every unit of branch length is one column separating the tips below that branch
+    from all others (no homoplasy), so that the Hamming distance of two rows is the path length between the tips"""
+    tips = m_tips(model)
+    cols = []
+    states = [str(x) for x in spec["states"]]
+    counter = [0]
+
+    def walk(nd, root):
+        if not root:
+            k = int(nd["len"])
+            if k != nd["len"] or k < 1:
+                raise ValueError("columns style needs positive integer branch lengths")
+            below = set(m_tips(nd))
+            x, y = states[counter[0] % len(states)]
+            counter[0] += 1
+            cols.extend([{t: (x if t in below else y) for t in tips}] * k)
+        for ch in nd["kids"]:
+            walk(ch, False)
+
+    walk(model, True)
+    valid = len(cols) + 1
+    cols.append({t: "A" for t in tips})  # a constant column
+    if spec.get("gap_column"):
+        cols.insert(len(cols) // 2, {t: "-" for t in tips})  # excluded from every pair
+        cols.append({t: "N" for t in tips})
+    return {t: "".join(c[t] for c in cols) for t in tips}, valid
+
+
+def _scaled(nd, f):
+    return {"name": nd["name"], "len": None if nd["len"] is None else nd["len"] / f, "kids": [_scaled(k, f) for k in nd["kids"]]}
+
+
 def exec_nj(case) -> Soft:
     from cogent3.evolve.fast_distance import DistanceMatrix
     from cogent3.phylo.nj import gnj, nj
@@ -733,14 +944,36 @@ def exec_nj(case) -> Soft:
                 compare_tree(s, "app.quick_tree", t5, model, what, rooted=False, refine_ok=poly)
     s.check(dists == snapshot, "input-mutated", what)
     s.evals = 5
+    spec = case.get("aln")
+    if spec and case["style"] == "columns":
+        # Alignment.quick_tree(calc=) on an alignment whose hamming / p-distance matrix is exactly the additive matrix
+        from cogent3 import make_aligned_seqs
+
+        seqs, valid = realise_alignment(model, spec)
+        calc = str(spec["calc"])
+        s.cls("aln.quick_tree:" + calc, "aln.quick_tree:" + ("ArrayAlignment" if spec["array_align"] else "Alignment"))
+        ok, aln = s.call("make_aligned_seqs", lambda: make_aligned_seqs({nm: seqs[nm] for nm in order}, moltype="dna", array_align=bool(spec["array_align"])))
+        if ok:
+            want_model = model if calc == "hamming" else _scaled(model, float(valid))
+            whata = f"{what}; aln.quick_tree(calc={calc!r}) of rows {[(nm, seqs[nm]) for nm in order]}"
+            ok, t6 = s.call("aln.quick_tree", lambda: aln.quick_tree(calc=calc, show_progress=False))
+            if ok:
+                compare_tree(s, "aln.quick_tree", t6, want_model, whata, rooted=False, refine_ok=poly)
+            ok, dm2 = s.call("aln.distance_matrix", lambda: aln.distance_matrix(calc=calc))
+            if ok:
+                wp = m_paths(want_model)
+                gd = {(str(a), str(b)): float(v) for (a, b), v in dm2.to_dict().items()}
+                bad = [(k, gd.get(k), v) for k, v in wp.items() if gd.get(k) is None or abs(gd[k] - v) > 1e-12 * max(1.0, v)]
+                s.check(not bad, "aln.distance_matrix/not-the-path-lengths", f"{whata}: (pair, got, want) {bad[:3]}")
+            s.evals += 2
     return s
 
 
 # ----------------------------------------------------------------------- upgma
 @st.composite
-def upgma_cases(draw):
-    n = draw(st.sampled_from([3, 4, 5, 6, 6, 7, 7, 8, 8, 9, 9, 10, 11, 12]))
-    names = draw(st.permutations(TIP_NAMES))[:n]
+def upgma_cases(draw, tier="quick"):
+    n = draw(st.sampled_from(SIZES_THOROUGH if tier == "thorough" else SIZES_QUICK))
+    names = draw(st.permutations(MORE_TIP_NAMES if n > len(TIP_NAMES) else TIP_NAMES))[:n]
     style = draw(st.sampled_from(["dyadic", "dyadic", "float"]))
     shape = draw(st.sampled_from(["random", "random", "random", "random", "random", "caterpillar"]))
     # nodes carry their height; edge lengths are derived so that the tree is ultrametric
@@ -765,7 +998,7 @@ def upgma_cases(draw):
 
     tree = finish(nodes[0], None)
     tree["name"] = "root"
-    return {"tree": tree, "height": nodes[0]["h"], "style": style, "order": draw(st.permutations(sorted(names)))}
+    return {"tree": tree, "height": nodes[0]["h"], "style": style, "order": draw(st.permutations(sorted(names))), "form": draw(st.sampled_from(["dict", "DistanceMatrix", "both"]))}
 
 
 def exec_upgma(case) -> Soft:
@@ -783,30 +1016,52 @@ def exec_upgma(case) -> Soft:
     s.cls(f"tips:{n}", "style:" + case["style"], "caterpillar" if cherries <= 1 else "non-caterpillar")
     s.nontrivial = n >= 5 and cherries >= 2
     snapshot = dict(dists)
-    ok, t = s.call("upgma", lambda: upgma(dict(dists)))
-    if ok:
-        got = compare_tree(s, "upgma", t, model, what, rooted=True)
+    form = str(case.get("form", "dict"))
+    s.cls("input:" + form)
+
+    def verify(sig, t):
+        got = compare_tree(s, sig, t, model, what, rooted=True)
         if got is not None:
             depth = m_depths(got)
             H = float(case["height"])
             bad = [(k, v[-1][1]) for k, v in sorted(depth.items()) if abs(v[-1][1] - H) > 1e-9 * max(1.0, H)]
-            s.check(not bad, "upgma/tip-heights", f"{what}: got {_brief(got)}; root height {H}, (tip, root-to-tip) {bad[:3]}")
-            s.check(len(got["kids"]) == 2 or n < 2, "upgma/root-degree", f"{what}: got {_brief(got)}")
+            s.check(not bad, sig + "/tip-heights", f"{what}: got {_brief(got)}; root height {H}, (tip, root-to-tip) {bad[:3]}")
+            s.check(len(got["kids"]) == 2 or n < 2, sig + "/root-degree", f"{what}: got {_brief(got)}")
+
+    evals = 0
+    if form in ("dict", "both"):
+        ok, t = s.call("upgma", lambda: upgma(dict(dists)))
+        evals += 1
+        if ok:
+            verify("upgma", t)
+    if form in ("DistanceMatrix", "both"):
+        # the documented call form upgma(calculator.get_pairwise_distances()), i.e. a DistanceMatrix
+        from cogent3.evolve.fast_distance import DistanceMatrix
+
+        ok, dm = s.call("DistanceMatrix", lambda: DistanceMatrix(dict(dists)))
+        if ok:
+            before = [[float(x) for x in r] for r in dm.array]
+            ok, t = s.call("upgma[DistanceMatrix]", lambda: upgma(dm))
+            evals += 1
+            if ok:
+                verify("upgma[DistanceMatrix]", t)
+            s.check([[float(x) for x in r] for r in dm.array] == before, "upgma[DistanceMatrix]/input-mutated", what)
+    s.evals = max(1, evals)
     s.check(dists == snapshot, "input-mutated", what)
     return s
 
 
 SUBS = [
     Sub("estimators", exec_est, strategy=est_cases(), quick=1000, thorough=16 * 8000, shards_quick=16, weight=4.0),
-    Sub("nj", exec_nj, strategy=nj_cases(), quick=1500, thorough=16 * 12000, shards_quick=8),
-    Sub("upgma", exec_upgma, strategy=upgma_cases(), quick=800, thorough=16 * 8000, shards_quick=8),
+    Sub("nj", exec_nj, strategy=lambda tier: nj_cases(tier), quick=1500, thorough=16 * 12000, shards_quick=8),
+    Sub("upgma", exec_upgma, strategy=lambda tier: upgma_cases(tier), quick=800, thorough=16 * 8000, shards_quick=8),
 ]
 
 KNOWN_PREDICATES = {}
 
 META = {
     "technique": "Hypothesis-generated alignments against exact-rational re-implementations of the published distance formulas (plus metamorphic column/row permutations and entry-point differentials); generated trees -> additive / ultrametric matrices -> NJ / UPGMA reconstruction compared with a nested-list tree model",
-    "level_text": "Each run generates several hundred alignments (gaps, ambiguity codes, duplicate rows, saturated and exactly-p=0.75 pairs, skewed and incomplete base composition) and evaluates every pair under seven estimators against formulas written in the harness with exact rational arithmetic, and about two thousand trees with positive branch lengths whose path-length matrices must be reconstructed exactly (bipartitions/clusters and all path lengths at 1e-9) by nj, gnj, DistanceMatrix.quick_tree, the quick_tree app and upgma.",
-    "level_note": "Trusts the harness formulas (about 80 lines) and tree model (about 80 lines). Bounded to 6 rows x 204 columns and 12 tips in the quick tier; near-singular log arguments are excluded from value comparison; the 0.5 pseudo-count branch of paralinear/LogDet is not exercised as an oracle clause.",
+    "level_text": "Each run generates about a thousand DNA, RNA and protein alignments (gaps, ambiguity codes, duplicate rows, saturated and exactly-p=0.75 pairs, skewed and incomplete composition) and evaluates every pair under seven (protein: five) estimators against formulas for r states written in the harness with exact rational arithmetic, including the 0.5 pseudo-count branch of paralinear/LogDet, plus drop_invalid and Alignment.quick_tree; and about two thousand trees with positive branch lengths whose path-length matrices must be reconstructed exactly (bipartitions/clusters and all path lengths at 1e-9) by nj, gnj, DistanceMatrix.quick_tree, the quick_tree app, Alignment.quick_tree on a homoplasy-free alignment realising the tree, and upgma (dict and DistanceMatrix input).",
+    "level_note": "Trusts the harness formulas (about 100 lines) and tree model (about 80 lines). Bounded to 6 rows x 221 columns and 12 tips in the quick tier (30 tips in the thorough tier); near-singular log arguments and ill-conditioned frequency matrices are excluded from value comparison; text / bytes alignments and new-style alignments are not generated; bootstrap consensus of quick_tree is not checked.",
     "design_ref": "DESIGN.md section 1, C15",
 }
